@@ -250,7 +250,7 @@ def gen_cases(rng, tier):
     for i in range(n_ref):
         cases.append(g_ref_case(rng))
     # multi-event histories: the statement's parameters are expressions over state that changes while the head waits
-    n_hist = 700 if tier == "quick" else 12000
+    n_hist = 1200 if tier == "quick" else 12000
     for i in range(n_hist):
         cases.append(hist.g_case(rng))
     return cases
